@@ -23,6 +23,23 @@ Theorem C02_failed_replicas_detached : forall s wid off len fs a,
   ~ In a (keys (replicas (fst (do_write s wid off len fs)))).
 Proof. exact write_failed_detached. Qed.
 
+(** every writer that did not fail before applying holds the write afterwards (whatever was detached
+    in the same operation), and whoever is listed afterwards was listed before: together with the
+    detachment of failed writers, every replica in service after an acknowledged write holds it *)
+Theorem C02_survivors_hold_the_write : forall s wid off len fs x,
+  struct_ok s -> ro s = false -> avail s = true -> 0 <= off -> off + len <= csize s ->
+  In x (writers s) -> flt fs x KWrite = false ->
+  In wid (f_applied (wget (w (fst (do_write s wid off len fs))) x)).
+Proof. exact write_survivors_hold_it. Qed.
+
+Theorem C02_nobody_joins_during_a_write : forall s wid off len fs x m,
+  struct_ok s ->
+  aget (replicas (fst (do_write s wid off len fs))) x = Some m -> m <> ERR ->
+  In x (keys (replicas s)).
+Proof. exact in_service_after_write_was_writer. Qed.
+
 Print Assumptions C02_ack_needs_strict_majority.
+Print Assumptions C02_survivors_hold_the_write.
+Print Assumptions C02_nobody_joins_during_a_write.
 Print Assumptions C02_no_majority_is_reported_failed.
 Print Assumptions C02_failed_replicas_detached.
